@@ -1,6 +1,8 @@
 //! vh_els: drives the real language server (els::Server through molc's FakeClient) in-process.
 //!   docsync  (C28): open + incremental change notifications; VFS.read compared with the client's copy
+//!   diagsync (C29): edit history + saves on one server vs a fresh server on the final text; last published diagnostics
 //!   rename   (C30): textDocument/rename at given positions of a freshly analysed document
+mod diagsync;
 mod docsync;
 mod rename;
 mod util;
@@ -12,6 +14,7 @@ fn main() {
     util::install_quiet_panic_hook();
     let code = match sub {
         "docsync" => docsync::run(&rest),
+        "diagsync" => diagsync::run(&rest),
         "rename" => rename::run(&rest),
         _ => {
             eprintln!("unknown sub-command {sub:?}");
